@@ -19,7 +19,7 @@ from common import VERIF, run_shards
 
 PID = "C08"
 T_END = 2_600_000_003
-POLICIES = ["random", "random", "lifo", "hold-interrupts", "hold-component", "fifo", "ack", "ack", "ack-per-topic"]
+POLICIES = ["random", "random", "lifo", "hold-interrupts", "hold-component", "fifo", "ack", "ack", "ack-per-topic", "ack-concurrent"]
 
 
 def cones(cfg):
@@ -74,6 +74,9 @@ def make_bus(policy, bseed, cfg):
     if policy == "ack-per-topic":
         # ... and the topics of one consumer are read independently of one another (free cross-topic order even within a consumer)
         return cbus.CBus(rng, "random", ack=[0, 1, 3, 8, 20, 60], per_topic=True)
+    if policy == "ack-concurrent":
+        # ... and a handler is started per delivered message, not waiting for the consumer's previous handler to return
+        return cbus.CBus(rng, "random", ack=[0, 1, 3, 8, 20, 60], concurrent=True)
     return cbus.CBus(rng, policy)
 
 
@@ -109,13 +112,13 @@ def net_part(ck, tier, rng):
                       ({1: dict(order=[(3, "dev"), (4, 2), (8, "dev")], conns=[(3, 1, 8, 1), (4, 1, 8, 2)]),
                         2: dict(order=[(5, "dev"), (6, "dev")], conns=[(5, 1, 6, 1), (6, 1, 2, 1)])},
                        {3: (24, 400_000_000, 1), 5: (25, 400_000_000, 1), 6: (26, 1_000_000_000, 0), 8: (27, 1_000_000_000, 0)})):
-        corpus.append(dict(cfg=cfg, devs=devs, stim=[], schedules=[(pol, 7 + j) for j, pol in enumerate(["lifo", "random", "hold-component", "random", "fifo", "ack", "ack-per-topic"])]))
+        corpus.append(dict(cfg=cfg, devs=devs, stim=[], schedules=[(pol, 7 + j) for j, pol in enumerate(["lifo", "random", "hold-component", "random", "fifo", "ack", "ack-per-topic", "ack-concurrent"])]))
     for i in range(len(corpus) + n):
         if i < len(corpus):
             case = corpus[i]      # minimised regression cases run first
         else:
             cfg = slevel.gen_config(rng, depth=rng.choice([0, 1, 2, 2, 3]), p_sys=0.6)
-            devs = slevel.gen_devs(rng, cfg)
+            devs = slevel.gen_devs(rng, cfg, (0, 0, 1, 2, 3, 4, 5, 5))
             stim, sim = gen_stim(rng, cfg)
             nsim += sim
             case = dict(cfg=cfg, devs=devs, stim=stim, schedules=[(rng.choice(POLICIES), rng.randrange(10 ** 6)) for _ in range(k)])
